@@ -156,7 +156,7 @@ def pair_case(draw, tier):
 	else:
 		base = draw(st.integers(0, max(0, lim_big - 200)))
 	base_name = where
-	big = tier == 'thorough' and draw(st.integers(0, 19)) == 19
+	big = draw(st.integers(0, 19 if tier == 'thorough' else 59)) == (19 if tier == 'thorough' else 59)
 	if big:
 		n = draw(st.integers(200, 3000))
 		import random
